@@ -997,6 +997,119 @@ def register(gen, T):
         out.append(T.footer("MslVecTables"))
         return "".join(out)
 
+    @gen("MslCallTables")
+    def msl_call_tables():
+        """`generate_user_call` per CallType: which operands of the IR call are ARGUMENTS (for MethodExternal operand 0 is the
+        object) and from which parameter on the default values of left-out arguments are filled in (`.skip(n)` over the
+        callee's parameters).  Both are written down relative to the operand list `exprs`: `argStart` = index of the first
+        operand that is an argument, `skipOff` = n is `exprs.len() - skipOff`.  The code is right when the two agree in every
+        arm (the parameters that are skipped are exactly the ones that received an argument).  The extractor reads the direct
+        form (`let (object, arguments) = match ct { .. (object, <slice>) .. }` + `.skip(arguments.len())`) and the form with the
+        argument list generated inside the arms and / or the fill loop in a helper function that receives the count."""
+        from rustsrc import ExtractError, fn_body, first_match, match_arms, normws, lean_str
+        gm = T.src("msl/src/generator.rs")
+        out = [T.header("MslCallTables", ["msl/src/generator.rs"])]
+
+        def lb(b):
+            return "true" if b else "false"
+
+        body = fn_body(gm, "generate_user_call")
+        nb = normws(body)
+        _, arms_text, _ = first_match(body, r'^ct$')
+        SLICE = r'(exprs\.as_slice\(\)|&exprs\[(\d+)\.\.\]|&exprs\[\.\.\]|exprs)'
+        arms = []
+        tuple_bound = None
+        mb = re.search(r'let \((?:mut )?(\w+), (?:mut )?(\w+)\) = match ct \{', nb)
+        if not mb:
+            raise ExtractError("generate_user_call: no `let (object, arguments) = match ct`")
+        second = mb.group(2)
+        object_ok = True
+        for pats, guard, result in match_arms(arms_text):
+            if guard or len(pats) != 1 or not re.fullmatch(r'ir::CallType::\w+', pats[0]):
+                raise ExtractError(f"generate_user_call: arm {pats!r}")
+            r = normws(result)
+            tup = re.search(r'\((\w+), ' + SLICE + r'\) \}$', r)
+            inv = re.findall(r'generate_invocation_args\(' + SLICE + r', context\)', r)
+            if tup and not inv:
+                start, kind = int(tup.group(3) or 0), "slice"
+            elif len(inv) == 1 and not tup:
+                start, kind = int(inv[0][1] or 0), "generated"
+            else:
+                raise ExtractError(f"generate_user_call: cannot tell which operands of arm {pats[0]} are arguments")
+            if tuple_bound not in (None, kind):
+                raise ExtractError("generate_user_call: arms bind different things")
+            tuple_bound = kind
+            if start > 0:
+                object_ok = object_ok and start == 1 and "generate_expression(&exprs[0], context)?" in r
+            arms.append((pats[0].split("::")[-1], start))
+        if not arms:
+            raise ExtractError("generate_user_call: no arms")
+        # where the argument list is generated when the arms hand out the slice
+        if tuple_bound == "slice":
+            gen_pos = nb.find(f"let mut args = generate_invocation_args({second}, context)?;")
+        else:
+            gen_pos = nb.find("match ct {")
+        # the fill loop: here or in a helper that receives the number of provided arguments
+        fill_text = nb
+        call_pos = None
+        ms = re.search(r'decl\.params\.iter\(\)\.skip\(([^()]*(?:\(\))?[^()]*)\)', nb)
+        if ms:
+            skip_expr = ms.group(1).strip()
+            call_pos = ms.start()
+        else:
+            mh = re.search(r'\b(\w+)\(&mut args, id, ([^,]+), context\)\??;', nb)
+            if not mh:
+                raise ExtractError("generate_user_call: no fill loop and no helper call")
+            helper = mh.group(1)
+            hsrc = gm
+            hm = re.search(r'\bfn\s+' + helper + r'\s*\(([^)]*)\)', hsrc)
+            if not hm:
+                raise ExtractError(f"generate_user_call: helper {helper} not found")
+            hparams = [x.strip().split(":")[0].strip() for x in hm.group(1).split(",") if x.strip()]
+            if len(hparams) != 4:
+                raise ExtractError(f"generate_user_call: helper {helper} has parameters {hparams}")
+            fill_text = normws(fn_body(hsrc, helper))
+            mk = re.search(r'decl\.params\.iter\(\)\.skip\((\w+)\)', fill_text)
+            if not mk or mk.group(1) != hparams[2]:
+                raise ExtractError(f"generate_user_call: helper {helper} does not skip its count parameter")
+            skip_expr = mh.group(2).strip()
+            call_pos = mh.start()
+
+        def skip_off(start):
+            if skip_expr == f"{second}.len()" and tuple_bound == "slice":
+                return start
+            if skip_expr == "args.len()":
+                # the generated argument list: one per argument operand at this point
+                return start
+            if skip_expr == "exprs.len()":
+                return 0
+            mo = re.fullmatch(r'exprs\.len\(\) - (\d+)', skip_expr)
+            if mo:
+                return int(mo.group(1))
+            raise ExtractError(f"generate_user_call: skip count {skip_expr!r}")
+
+        rows = [(n, st, skip_off(st)) for n, st in arms]
+        pushes = "if let Some(default_expr) = &param.default_expr { args.push(Located::none(generate_expression(default_expr, context)?)); }" in fill_text
+        only_with_globals = bool(re.search(r'context \.function_required_globals \.get\(&id\) \.unwrap\(\) \.is_empty\(\)', fill_text))
+        app_pos = nb.find("append_arguments_for_globals(&mut args, id, context);")
+        end_pos = nb.find("ast::Expression::Call(Box::new(Located::none(object)), type_args, args)")
+        order = -1 < gen_pos < call_pos < app_pos < end_pos and nb.count("args.push(") + fill_text.count("args.push(") <= 2
+        out.append("/-- one arm of `match ct` in generate_user_call: call type, index of the first operand that is an argument, and the\n"
+                   "    fill loop skips `exprs.len() - skipOff` parameters -/\n"
+                   "structure CallArm where\n  name : String\n  argStart : Nat\n  skipOff : Nat\n  deriving DecidableEq, Repr\n\n")
+        out.append("def userCallArms : List CallArm := [\n" + ",\n".join(f"  ⟨{lean_str(n)}, {a}, {k}⟩" for n, a, k in rows) + "\n]\n\n")
+        out.append(f"/-- the count handed to `.skip(..)`, as written -/\ndef userCallSkipExpression : String := {lean_str(skip_expr)}\n\n")
+        out.append("/-- where operands are skipped, operand 0 is generated as the object of the member call -/\n"
+                   f"def userCallObjectIsOperand0 : Bool := {lb(object_ok)}\n")
+        out.append("/-- arguments, then the fill loop, then append_arguments_for_globals, then the Call node; nothing else pushes -/\n"
+                   f"def userCallOrderAsModelled : Bool := {lb(order)}\n")
+        out.append("/-- the fill loop pushes the generated default of every remaining parameter that has one, nothing else -/\n"
+                   f"def fillPushesDefaultsOnly : Bool := {lb(pushes)}\n")
+        out.append("/-- the fill loop runs only when the callee receives parameters for globals -/\n"
+                   f"def fillOnlyWithGlobals : Bool := {lb(only_with_globals)}\n")
+        out.append(T.footer("MslCallTables"))
+        return "".join(out)
+
     @gen("MslDupSites")
     def msl_dup_sites():
         """Where can the Metal back end write one IR operand more than once?  `ast::Expression` / `ir::Expression` are not
